@@ -22,6 +22,23 @@ structure Profile where
   segmented : Bool := true     -- constructed (segmented) string encodings allowed
 deriving Repr, DecidableEq
 
+/-- canonical representative of a REAL value: zero, or base 2 with an odd mantissa (X.690 11.3.1);
+    values in base 10 (not modelled: they go through CPython floats) stand for themselves -/
+def realKey : RealVal → RealVal
+  | .fin m b e =>
+    if m = 0 then .fin 0 10 0
+    else if b = 2 then
+      let r := normOdd m.natAbs m.natAbs e
+      .fin (if m < 0 then -(r.1 : Int) else r.1) 2 r.2
+    else .fin m b e
+  | r => r
+
+/-- contents octets of a REAL (8.5): empty for zero, the special values, the binary form in base 2 -/
+def realContent : RealVal → Option Bytes
+  | .pinf => some [0x40]
+  | .minf => some [0x41]
+  | .fin m b e => if m = 0 then some [] else if b = 2 then realBinToContent m e else none
+
 def berProfile : Profile := {}
 def cerProfile : Profile := { anyTrue := false }
 def derProfile : Profile := { anyTrue := false, segmented := false }
@@ -75,6 +92,7 @@ inductive IsBody (pf : Profile) : Ty → Val → TLV → Prop
   | enum {z h tg} : IsBody pf (.prim .enumerated) (.int z) (.prim h tg (intToBytes z))
   | null {h tg} : IsBody pf (.prim .null) .null (.prim h tg [])
   | oid {arcs c h tg} : oidToContent arcs = some c → IsBody pf (.prim .oid) (.oid arcs) (.prim h tg c)
+  | real {r c h tg} : realContent r = some c → IsBody pf (.prim .real) (.real r) (.prim h tg c)
   | bits {bs h tg} : IsBody pf (.prim .bitString) (.bits bs) (.prim h tg (bitsToContent bs))
   | bitsSeg {bs h tg i cs} : pf.segmented = true → cs ≠ [] → IsBitSegs cs bs →
       IsBody pf (.prim .bitString) (.bits bs) (.cons h tg i cs)
@@ -114,9 +132,11 @@ def All2 {α β} (R : α → β → Prop) : List α → List β → Prop
   | _, _ => False
 
 mutual
-/-- same abstract value: SET OF is a multiset, everything else is compared as it stands -/
+/-- same abstract value: SET OF is a multiset, a REAL is the number it denotes, everything else is
+    compared as it stands -/
 def VEq : Ty → Val → Val → Prop
   | .tagged _ _ _ t, a, b => VEq t a b
+  | .prim .real, .real a, .real b => realKey a = realKey b
   | .seq fs, .seq as, .seq bs => VEqFields fs as bs
   | .set fs, .seq as, .seq bs => VEqFields fs as bs
   | .seqOf t, .seqOf as, .seqOf bs => All2 (fun a b => VEq t a b) as bs
